@@ -15,8 +15,10 @@ for f in sorted(glob.glob('/verif/known-findings.d/*.json'))+['/verif/known-find
         c=e.get('commit','')
         if any(h.startswith(c) or c.startswith(h) for h in hashes) and c: continue
         s=None
-        for h,su in subj_of.items():
-            if c and (h.startswith(c) or c.startswith(h)): s=su
+        try:
+            s=subprocess.check_output(['git','-C','/repo','show','-s','--format=%s',c],stderr=subprocess.DEVNULL).decode().strip()
+        except Exception:
+            pass
         if s and s in by_subject:
             new=by_subject[s]; e['line']=e.get('line','').replace(c,new); e['commit']=new; changed=True
         else:
